@@ -124,6 +124,11 @@ func RegisterSV(ld *Loaded) {
 		}
 		p.params[name] = v
 		p.inputs = append(p.inputs, Input{Name: p.inputName("param:" + name), Kind: "choice", N: v})
+		if name == "engine.msteps" {
+			// a harness with long concrete stretches (deep recursion, long
+			// histories) states its own instruction budget, in millions
+			p.stepBudget = int64(v) * 1_000_000
+		}
 		return v
 	})
 	reg("FloatSame", func(fr *frame, args []value) value {
